@@ -1,7 +1,6 @@
 package c04
 
 import (
-	"slices"
 	"bytes"
 	"context"
 	"fmt"
@@ -9,6 +8,7 @@ import (
 	"math/big"
 	"net/http"
 	"net/http/httptest"
+	"slices"
 	"sort"
 	"strings"
 	"time"
@@ -342,7 +342,9 @@ func kinesisBody(c *mc.Ctx) {
 	c.Nontrivial(strings.Join(c.Ops(), " "))
 }
 
-func short(sh string) string { return "s" + strings.TrimLeft(strings.TrimPrefix(sh, "shardId-"), "0") + zero(sh) }
+func short(sh string) string {
+	return "s" + strings.TrimLeft(strings.TrimPrefix(sh, "shardId-"), "0") + zero(sh)
+}
 func zero(sh string) string {
 	if strings.TrimLeft(strings.TrimPrefix(sh, "shardId-"), "0") == "" {
 		return "0"
